@@ -720,6 +720,18 @@ class _DistributeCall(ast.NodeTransformer):
             a = ast.Call(func=n.func.body, args=copy.deepcopy(n.args), keywords=copy.deepcopy(n.keywords))
             b = ast.Call(func=n.func.orelse, args=copy.deepcopy(n.args), keywords=copy.deepcopy(n.keywords))
             return ast.IfExp(test=n.func.test, body=self.visit_Call(a), orelse=self.visit_Call(b))
+        # getattr(o, A if c else B)  ->  o.A if c else o.B     (constant attribute names selected by a condition: a small table of names)
+        if isinstance(n.func, ast.Name) and n.func.id == "getattr" and len(n.args) == 2 and not n.keywords and isinstance(n.args[1], ast.IfExp) \
+                and isinstance(n.args[0], (ast.Name, ast.Attribute)):
+            def dist(e_: ast.AST, depth_: int = 0) -> ast.AST:
+                if isinstance(e_, ast.IfExp) and depth_ < 12:
+                    return ast.IfExp(test=e_.test, body=dist(e_.body, depth_ + 1), orelse=dist(e_.orelse, depth_ + 1))
+                if isinstance(e_, ast.Constant) and e_.value is None:
+                    return ast.Constant(value=None)  # (only reached where "no name" has been excluded by the caller's own test)
+                if isinstance(e_, ast.Constant) and isinstance(e_.value, str) and e_.value.isidentifier():
+                    return ast.Attribute(value=copy.deepcopy(n.args[0]), attr=e_.value, ctx=ast.Load())
+                return ast.Call(func=ast.Name(id="getattr", ctx=ast.Load()), args=[copy.deepcopy(n.args[0]), e_], keywords=[])
+            return dist(n.args[1])
         return n
 
 
